@@ -26,6 +26,6 @@ PROP = {
     "trivial_sig": r"malformed",
     "rule": _EP_RULE + " Every tenth case adds an oracle-only flood case: the peer starts a port message and keeps sending continuation chunks with fresh "
             "ports and never the last one (max_received_ports 1..6): the receiver must fail with an error as soon as the limit is exceeded instead of accumulating; "
-            "or one batch names a port twice: the connection must end with a protocol error. Oracle in the main stream: a port batch without ports must end the connection.",
+            "or one batch names a port twice: the connection must end with a protocol error; or a local send / chunked send / multi-port open request is blocked on flow credits when the peer violates the protocol (data or credits for an unknown port, a second Hello): the blocked operation must end with an error; or the peer sends connect_queue + 2 open requests of one kind (wait or no-wait) to an idle listener: the connection must end with a protocol error at the last one and not before. Oracle in the main stream: a port batch without ports must end the connection.",
     "assumptions": ["paused-clock quiescence barrier", "hook H2 (codec) is used by the harness to speak the protocol"],
 }
